@@ -68,6 +68,7 @@ func init() {
 func runC11(r *fw.Run) {
 	defer c11LeaderWriteErrorIsNotShared(r)
 	defer c11SharedErrorKeepsItsChain(r)
+	defer c11LeaderContextErrorsRecognised(r)
 	p := r.Prog
 	pk := p.Pkg("resolve")
 	if pk == nil {
@@ -1174,4 +1175,55 @@ func c11SharedErrorKeepsItsChain(r *fw.Run) {
 		})
 	}
 	r.Expect("C11-R9", "writes of SingleFlightItem.err", n, 1)
+}
+
+// c11LeaderContextErrorsRecognised (R10): err(r) != ctx_err(r') — a follower must never be failed with the context error
+// of another request. The shared error is classified by one helper (a function of package resolve taking the follower's
+// context and the shared error and answering with errors.Is against the context package's error values): when it answers
+// true the follower loads on its own instead of returning the error. A request's context can end in two ways, Canceled
+// and DeadlineExceeded; the helper has to recognise both, otherwise the leader's own deadline becomes the error of a
+// follower that has a later deadline or none.
+func c11LeaderContextErrorsRecognised(r *fw.Run) {
+	p := r.Prog
+	r.Rule("C11-R10", "the helper that tells a leader's own context error from a failure of the shared work recognises every way a request context ends: errors.Is against context.Canceled and against context.DeadlineExceeded")
+	n := 0
+	for _, fi := range p.Funcs("resolve") {
+		sig := fi.Obj.Type().(*types.Signature)
+		if sig.Recv() != nil || sig.Params().Len() != 2 || sig.Results().Len() != 1 {
+			continue
+		}
+		if !fw.TypeIs(sig.Params().At(0).Type(), "context", "Context") || sig.Params().At(1).Type().String() != "error" {
+			continue
+		}
+		if b, ok := sig.Results().At(0).Type().Underlying().(*types.Basic); !ok || b.Kind() != types.Bool {
+			continue
+		}
+		info := fi.Info()
+		seen := map[string]bool{}
+		fw.WalkAll(fi.Decl.Body, func(nd ast.Node) bool {
+			c, ok := nd.(*ast.CallExpr)
+			if !ok || len(c.Args) != 2 {
+				return true
+			}
+			// errors.Is of the standard library or of github.com/pkg/errors
+			if fn := fw.Callee(info, c); fn == nil || fn.Name() != "Is" || fn.Pkg() == nil || !(fn.Pkg().Path() == "errors" || strings.HasSuffix(fn.Pkg().Path(), "/errors")) {
+				return true
+			}
+			if sel, isSel := ast.Unparen(c.Args[1]).(*ast.SelectorExpr); isSel {
+				if v, isVar := info.Uses[sel.Sel].(*types.Var); isVar && v.Pkg() != nil && v.Pkg().Path() == "context" {
+					seen[v.Name()] = true
+				}
+			}
+			return true
+		})
+		if len(seen) == 0 {
+			continue
+		}
+		n++
+		for _, name := range []string{"Canceled", "DeadlineExceeded"} {
+			r.Check(seen[name], "C11-R10", fi.Name()+"/recognises:"+name, fi.Pos(), fi.Name()+" tests the shared error against context."+name,
+				"a leader whose context ended with context."+name+" is not recognised as 'the leader's own end': the follower returns the leader's context error instead of loading on its own — a follower with a later deadline (or none) answers 'Failed to fetch from Subgraph' because another client's deadline passed")
+		}
+	}
+	r.Expect("C11-R10", "helpers classifying a shared error against context errors", n, 1)
 }
